@@ -90,7 +90,7 @@ func init() {
 				{Absent: []string{"N1", "N2", "N3"}},
 				{Evidence: []string{"N1"}},
 				{Evidence: []string{"N3"}},
-				{Evidence: []string{"N2@1"}}, // too old
+				{Evidence: []string{"N2@1"}},  // too old
 				{Evidence: []string{"N3@-3"}}, // infraction committed three blocks ago (when the node may still have had power)
 				{TimeJump: 2},
 				{},
